@@ -373,3 +373,93 @@ Qed.
 
 Lemma lex_no_fuel s : lex s <> LexFuel.
 Proof. apply lex_fuel_enough. lia. Qed.
+
+(* ---- the shortcut in [str_end] is the backtracking search ---- *)
+Definition no_quote (s : bytes) : bool := forallb (fun c => negb (byte_eqb c c_quote)) s.
+
+Lemma str_end_cons c r : str_end (c :: r) =
+  if byte_eqb c c_quote then Some 0
+  else if byte_eqb c c_bslash then
+    match r with
+    | d :: r' =>
+        if byte_eqb d c_lf then option_map S (str_end r)
+        else match str_end r' with
+             | Some k => Some (S (S k))
+             | None => if byte_eqb d c_quote then Some 1 else None
+             end
+    | [] => None
+    end
+  else option_map S (str_end r).
+Proof. destruct r; reflexivity. Qed.
+
+Lemma str_end_bt_cons c r : str_end_bt (c :: r) =
+  if byte_eqb c c_quote then Some 0
+  else if byte_eqb c c_bslash then
+    match r with
+    | d :: r' =>
+        if byte_eqb d c_lf then option_map S (str_end_bt r)
+        else match str_end_bt r' with
+             | Some k => Some (S (S k))
+             | None => option_map S (str_end_bt r)
+             end
+    | [] => None
+    end
+  else option_map S (str_end_bt r).
+Proof. destruct r; reflexivity. Qed.
+
+Lemma bt_none_no_quote : forall n s, length s <= n -> str_end_bt s = None -> no_quote s = true.
+Proof.
+  induction n as [|n IH]; intros s Hn H.
+  - destruct s; [reflexivity | simpl in Hn; lia].
+  - destruct s as [|c r]; [reflexivity|]. simpl in Hn.
+    rewrite str_end_bt_cons in H. unfold no_quote. cbn [forallb]. fold (no_quote r).
+    destruct (byte_eqb c c_quote) eqn:Eq; [discriminate|]. cbn [negb andb].
+    destruct (byte_eqb c c_bslash).
+    + destruct r as [|d r']; [reflexivity|].
+      destruct (byte_eqb d c_lf).
+      * destruct (str_end_bt (d :: r')) eqn:E; [discriminate|]. apply IH; [simpl in *; lia | exact E].
+      * destruct (str_end_bt r'); [discriminate|].
+        destruct (str_end_bt (d :: r')) eqn:E; [discriminate|]. apply IH; [simpl in *; lia | exact E].
+    + destruct (str_end_bt r) eqn:E; [discriminate|]. apply IH; [lia | exact E].
+Qed.
+
+Lemma no_quote_bt_none : forall n s, length s <= n -> no_quote s = true -> str_end_bt s = None.
+Proof.
+  induction n as [|n IH]; intros s Hn H.
+  - destruct s; [reflexivity | simpl in Hn; lia].
+  - destruct s as [|c r]; [reflexivity|]. simpl in Hn.
+    unfold no_quote in H. cbn [forallb] in H. fold (no_quote r) in H.
+    apply andb_true_iff in H. destruct H as [Hc Hr]. apply negb_true_iff in Hc.
+    rewrite str_end_bt_cons. rewrite Hc.
+    destruct (byte_eqb c c_bslash).
+    + destruct r as [|d r']; [reflexivity|].
+      assert (Hr' : no_quote r' = true).
+      { unfold no_quote in Hr. cbn [forallb] in Hr. apply andb_true_iff in Hr. apply Hr. }
+      rewrite (IH (d :: r') ltac:(simpl in *; lia) Hr), (IH r' ltac:(simpl in *; lia) Hr').
+      destruct (byte_eqb d c_lf); reflexivity.
+    + rewrite (IH r ltac:(lia) Hr). reflexivity.
+Qed.
+
+Lemma str_end_bt_eq : forall n s, length s <= n -> str_end s = str_end_bt s.
+Proof.
+  induction n as [|n IH]; intros s Hn.
+  - destruct s; [reflexivity | simpl in Hn; lia].
+  - destruct s as [|c r]; [reflexivity|]. simpl in Hn.
+    rewrite str_end_cons, str_end_bt_cons.
+    destruct (byte_eqb c c_quote); [reflexivity|].
+    destruct (byte_eqb c c_bslash).
+    + destruct r as [|d r']; [reflexivity|].
+      rewrite (IH (d :: r') ltac:(simpl in *; lia)), (IH r' ltac:(simpl in *; lia)).
+      destruct (byte_eqb d c_lf); [reflexivity|].
+      destruct (str_end_bt r') eqn:E; [reflexivity|].
+      pose proof (bt_none_no_quote (length r') r' (le_n _) E) as Hnq.
+      destruct (byte_eqb d c_quote) eqn:Ed.
+      * rewrite str_end_bt_cons, Ed. reflexivity.
+      * assert (Hnq' : no_quote (d :: r') = true).
+        { unfold no_quote. cbn [forallb]. rewrite Ed. exact Hnq. }
+        rewrite (no_quote_bt_none (length (d :: r')) (d :: r') (le_n _) Hnq'). reflexivity.
+    + rewrite (IH r ltac:(lia)). reflexivity.
+Qed.
+
+Lemma str_end_is_backtracking s : str_end s = str_end_bt s.
+Proof. apply (str_end_bt_eq (length s)). lia. Qed.
